@@ -318,14 +318,14 @@ def expand(ctx, b, entries, name):
 
 # ---------------------------------------------------------------------------------------------------------- running
 
-def split_blocks(text):
+def split_blocks(text, keep=("I ", "C ")):
     blocks, cur = [], None
     for line in text.splitlines():
         if line.startswith("S "):
             cur = [line]
             blocks.append(cur)
         elif cur is not None:
-            if line[:2] in ("I ", "C "):
+            if line[:2] in keep:
                 cur.append(line)
             elif line == "Z":
                 cur.append(line)
@@ -348,14 +348,15 @@ def _progress(outdir):
     return started, done, hang
 
 
-def run_schedules(ctx, b, sched_file, name="run", procs=8, timeout=300, watchdog_ms=2000, xsplit=-1, net_sync=False, max_failures_per_job=3):
-    """Executes every schedule of sched_file on the real code. -> dict(dirs, failures=[dict(sid, kind=hang|fatal, k, text)])"""
-    blocks = split_blocks(Path(sched_file).read_text())
+def run_schedules(ctx, b, sched_file, name="run", procs=8, timeout=300, watchdog_ms=2000, xsplit=-1, net_sync=False, max_failures_per_job=3, window=False):
+    """Executes every schedule of sched_file on the real code. -> dict(dirs, failures=[dict(sid, kind=hang|fatal, k, text)])
+    window=True: sched_file is a window scenario file (window_text), executed by TestSvWindow (harness/svsched/window.go)."""
+    blocks = split_blocks(Path(sched_file).read_text(), keep=("C ", "N ", "P ", "T ", "E ") if window else ("I ", "C "))
     root = b["work"] / name
     shutil.rmtree(root, ignore_errors=True)
     root.mkdir(parents=True)
     n = len(blocks)
-    procs = max(1, min(procs, (n + 7) // 8))
+    procs = max(1, min(procs, n if window else (n + 7) // 8))
     jobs = []
     for i in range(procs):
         part = blocks[i::procs]
@@ -378,7 +379,7 @@ def run_schedules(ctx, b, sched_file, name="run", procs=8, timeout=300, watchdog
             env.update({"SVSCHED_IN": str(j["dir"] / "in.txt"), "SVSCHED_OUT": str(j["dir"]), "SVSCHED_SKIP": str(j["skip"]),
                         "SVSCHED_WATCHDOG_MS": str(watchdog_ms), "SVSCHED_XSPLIT": str(xsplit), "SVSCHED_NET_SYNC": "1" if net_sync else "0",
                         "SVSCHED_CLOSER_ORDER": ",".join(b.get("order") or ["prepare", "net", "server"])})
-            p = subprocess.Popen([str(b["test_bin"]), "-test.run", "TestSvSched", "-test.timeout", "%ds" % timeout], cwd=j["dir"], env=env,
+            p = subprocess.Popen([str(b["test_bin"]), "-test.run", "TestSvWindow" if window else "TestSvSched", "-test.timeout", "%ds" % timeout], cwd=j["dir"], env=env,
                                  stdout=subprocess.PIPE, stderr=subprocess.STDOUT, text=True, errors="replace")
             running.append((p, j))
         nxt = []
@@ -693,6 +694,53 @@ def selftest_oracle(prop, sched_files):
                     failures.append((sid, idx, text, run))
             known += 1 if hit_known else 0
     return dict(judged=judged, failures=failures, known=known, incomplete=incomplete)
+
+
+def window_text(sc, tier, seed):
+    """A scenario of the table as input of the WINDOW runs (harness/svsched/window.go): the harness itself explores the interleavings of the
+    goroutines' micro-steps (every inner yield point parks), preemption bounded. wbound / wcap = [quick, thorough]."""
+    q = 0 if tier == "quick" else 1
+    L = ["S %s" % sc["id"], "C %d" % (1 if sc.get("noclear") else 0),
+         "N %d %d %d" % (sc.get("wbound", [2, 3])[q], sc.get("wcap", [120, 1500])[q], int(seed))]
+    for it in sc.get("pre", []):
+        L.append("P " + enc_item(it))
+    for c in sc.get("calls", []):
+        text, deps = (c, []) if isinstance(c, str) else (c[0], c[1] if len(c) > 1 else [])
+        L.append("T " + enc_item(text) + ((" after " + " ".join(map(str, deps))) if deps else ""))
+    for e in sc.get("env", []):
+        text, deps = (e, []) if isinstance(e, str) else (e[0], e[1] if len(e) > 1 else [])
+        L.append("E " + enc_item(text) + ((" after " + " ".join(map(str, deps))) if deps else ""))
+    L.append("Z")
+    return "\n".join(L) + "\n"
+
+
+def execute_windows(ctx, b, scenarios, tier, seed, name, procs=8, timeout=300):
+    """Window runs of the scenarios on the real code (not compared with the model). -> dict(runs, failures, images, stats={scenario: dict})"""
+    d = b["work"] / (name + "-in")
+    shutil.rmtree(d, ignore_errors=True)
+    d.mkdir(parents=True)
+    wf = d / "windows.txt"
+    wf.write_text("".join(window_text(s_, tier, seed) for s_ in scenarios))
+    rr = run_schedules(ctx, b, wf, name=name, procs=procs, timeout=timeout, window=True)
+    runs, stats = {}, {}
+    for dd in rr["dirs"]:
+        runs.update(parse_observed(dd / "observed.txt"))
+        try:
+            for line in (dd / "windows.txt").read_text().splitlines():
+                f = line.split()
+                if len(f) >= 6 and f[0] == "W":
+                    stats[f[1]] = dict(executions=int(f[2]), exhausted=f[3] == "1", bound=int(f[4]), cap=int(f[5]))
+        except OSError:
+            pass
+    images, untested = load_images(rr["dirs"])
+    reached = {}
+    for dd in rr["dirs"]:
+        try:
+            for k, v in json.loads((dd / "reached.json").read_text()).items():
+                reached[k] = reached.get(k, 0) + v
+        except Exception:
+            pass
+    return dict(runs=runs, failures=rr["failures"], images=images, untested_images=untested, stats=stats, reached=reached)
 
 
 def load_images(dirs):
@@ -1509,6 +1557,34 @@ def run_property(ctx, prop, tier=None, scenarios=None, procs=8):
         runs.update(xr)
         chk.update(xc)
 
+    # window runs: the inner yield points (every mutex acquisition / time.Timer call of timermap.go, session.go, store.go) park and the
+    # harness explores the interleavings of the micro-steps itself; judged by the oracles only (the schedule is not the model's)
+    wstats, wfail, n_window = {}, [], 0
+    try:
+        ew = execute_windows(ctx, b, scs, tier, ctx.seed, "w-%s" % prop, procs=procs, timeout=tmo)
+        wr = {}
+        for k, v in ew["runs"].items():
+            v.sid = "w:" + k
+            wr[v.sid] = v
+        n_window = len(wr)
+        wstats, wfail = ew["stats"], ew["failures"]
+        j3 = judge(prop, wr, {}, [], ew["images"], compare=False)
+        j["violations"] += j3["violations"]
+        j["known"] += j3["known"]
+        runs.update(wr)
+        images.update(ew["images"])
+        for k, v in ew["reached"].items():
+            reached[k] = reached.get(k, 0) + v
+    except Exception as ex:  # noqa
+        ctx.note("T2-svsched: window runs failed: %r" % (ex,))
+        wfail = [dict(sid="?", kind="fatal", k=-1, text=repr(ex))]
+    by_file = ins.get("acq_sites_by_file", {})
+    tie["inner_yield_points"] = {"per_file": {f_: len(v) for f_, v in sorted(by_file.items())}, "sites": by_file,
+                                 "rule": "every line ending in .Lock() / .RLock() and every line containing .Stop() / .Reset( in the listed files; "
+                                         "transparent in the model-chosen schedules, parking in the window runs"}
+    tie["window_runs"] = {"executions": n_window, "per_scenario": wstats, "hangs_or_fatal": len(wfail),
+                          "first_failure": (wfail[0]["sid"] + ": " + wfail[0]["text"][-300:]) if wfail else None}
+
     # oracle self-test on the model's own predicted observations of the same schedules (corpus + generated)
     try:
         stt = selftest_oracle(prop, [cf, sf])
@@ -1684,6 +1760,10 @@ def main(argv=None):
                  tie["mismatches_in_projection"], tie["schedules_differing_outside_projection"], tie["schedules_failing_oracle"], tie["known_finding_reproductions"],
                  tie["hangs_or_fatal"], tie["model_labels_never_reached"], tie["yield_points_missing"], tie["sentinels_placed"]))
         print("    oracle self-test on the model's traces: %s" % json.dumps(tie.get("oracle_selftest")))
+        wr_ = tie.get("window_runs", {})
+        print("    window runs: %d executions over %d scenarios (%d not exhausted), hangs/fatal %d; inner yield points per file: %s"
+              % (wr_.get("executions", 0), len(wr_.get("per_scenario", {})), sum(1 for v in wr_.get("per_scenario", {}).values() if not v["exhausted"]),
+                 wr_.get("hangs_or_fatal", 0), json.dumps(tie.get("inner_yield_points", {}).get("per_file"))))
         print("    extracted Coq trace predicates on the real observations: %s"
               % json.dumps({k_: v_ for k_, v_ in tie.get("coq_trace_predicates", {}).items() if k_ != "rule"}))
     for fid, text in ctx.known:
